@@ -8,7 +8,8 @@ from scen import C, e, n, op, scn, src, sub
 
 PID = "C13"
 ORACLE = "c13"
-TIE_ORACLES = ["c13k"]     # implementation = ConnK (the automaton the theorems are about)
+TIE_ORACLES = ["c13k"]
+EXTRA_ORACLES = ["c06"]    # "unsubscribing the last subscriber of ref_count/replay stops the source": probes of the cold source below it     # implementation = ConnK (the automaton the theorems are about)
 RULE = ("call histories over {subscribe_i, unsubscribe_i, connect, disconnect, source emits v, source completes/errors} with up to 3 "
         "subscribers on publish / ref_count / replay, for a hot source (driven step by step) and for cold sources that emit synchronously "
         "inside connect / first subscribe; also subscribers that leave early through a downstream operator (judged by correspondence); "
@@ -111,4 +112,12 @@ def generate(rng, tier, focus):
         for _ in range(rng.randrange(1, 6)):
             acts.append(["emit", 0, rng.choice([n(1), n(2), n(3), C])])
         cases.append((scn(subjects=[["subject"]], conns=[[kind, ["hot", 0]]], handles=3, script_=acts), {"k": "early-leave"}))
+    # a synchronous cold source below ref_count / replay whose only subscriber leaves from inside the emission
+    for _ in range(2500 if thorough else 400):
+        kind = rng.choice(["refcount", "replay"])
+        xs = [rng.choice([1, 2, 3]) for _ in range(rng.randrange(1, 7))]
+        s0 = scen.script(xs, rng.choice(["c", ("e", 5), "s"]))
+        p = scen.rand_chain(rng, ["conn", 0], rng.choice([1, 1, 2]), names=["take", "first", "map", "take_while", "skip", "element_at", "contains", "all"])
+        reacts = [(rng.randrange(3), ["unsub-self"])] if rng.random() < 0.25 else []
+        cases.append((scn(srcs=[src([s0], rng.random() < 0.3)], conns=[[kind, ["cold", 0]]], handles=1, script_=[sub(0, p, *reacts)]), {"k": "cold-early-leave"}))
     return cases
